@@ -13,6 +13,8 @@ struct Doc {
     account: Option<&'static str>,
     operator: Option<&'static str>,
     rule_account: Option<&'static str>,
+    /// `format` block: Some(None) = a block that leaves row_order to its default, Some(Some(x)) = a block that says `row_order: x`
+    format: Option<Option<&'static str>>,
 }
 
 fn doc_yaml(d: &Doc) -> String {
@@ -22,6 +24,10 @@ fn doc_yaml(d: &Doc) -> String {
     }
     if let Some(o) = d.operator {
         s.push_str(&format!("operator: {}\n", o));
+    }
+    if let Some(ro) = d.format {
+        s.push_str("format:\n  date: \"%Y-%m-%d\"\n  fields:\n    date: Date\n    payee: Text\n    amount: Amount\n");
+        if let Some(x) = ro { s.push_str(&format!("  row_order: {}\n", x)); }
     }
     if let Some(r) = d.rule_account {
         s.push_str(&format!("rewrite:\n  - matcher:\n      payee: x\n    account: {}\n", r));
@@ -33,20 +39,25 @@ fn layering(bad: &mut Vec<(String, String)>, evaluated: &mut u64) {
     // the base document carries the mandatory settings and matches every file used below (shortest path)
     let base = "path: \"/\"\nencoding: UTF-8\naccount: Base\naccount_type: asset\ncommodity: CHF\nrewrite:\n  - matcher:\n      payee: x\n    account: R:base\n";
     let pool = [
-        Doc { path: "bank/", account: Some("A:bank"), operator: Some("O:bank"), rule_account: Some("R:bank") },
-        Doc { path: "okane/", account: Some("A:okane"), operator: None, rule_account: Some("R:okane") },
-        Doc { path: "checking/", account: Some("A:checking"), operator: Some("O:checking"), rule_account: None },
-        Doc { path: "bank/okane/", account: None, operator: Some("O:bank-okane"), rule_account: Some("R:bank-okane") },
-        Doc { path: "zz/", account: Some("A:zz"), operator: Some("O:zz"), rule_account: Some("R:zz") },
-        Doc { path: "2024", account: Some("A:2024"), operator: None, rule_account: Some("R:2024") },
-        Doc { path: "savings/", account: Some("A:savings"), operator: None, rule_account: Some("R:savings") },
+        Doc { path: "bank/", account: Some("A:bank"), operator: Some("O:bank"), rule_account: Some("R:bank"), format: None },
+        Doc { path: "okane/", account: Some("A:okane"), operator: None, rule_account: Some("R:okane"), format: None },
+        Doc { path: "checking/", account: Some("A:checking"), operator: Some("O:checking"), rule_account: None, format: None },
+        Doc { path: "bank/okane/", account: None, operator: Some("O:bank-okane"), rule_account: Some("R:bank-okane"), format: None },
+        Doc { path: "zz/", account: Some("A:zz"), operator: Some("O:zz"), rule_account: Some("R:zz"), format: None },
+        Doc { path: "2024", account: Some("A:2024"), operator: None, rule_account: Some("R:2024"), format: None },
+        Doc { path: "savings/", account: Some("A:savings"), operator: None, rule_account: Some("R:savings"), format: None },
         // ties: the same length as "okane/" (document order decides), and the very same path twice
-        Doc { path: "/2024.", account: Some("A:tie"), operator: Some("O:tie"), rule_account: Some("R:tie") },
-        Doc { path: "okane/", account: Some("A:okane2"), operator: None, rule_account: Some("R:okane2") },
+        Doc { path: "/2024.", account: Some("A:tie"), operator: Some("O:tie"), rule_account: Some("R:tie"), format: None },
+        Doc { path: "okane/", account: Some("A:okane2"), operator: None, rule_account: Some("R:okane2"), format: None },
         // a longer-path document that restates, verbatim, a rule it inherits from a shorter-path one: rule lists are
         // concatenated, never merged as sets (seed C17-j)
-        Doc { path: "checking/", account: None, operator: None, rule_account: Some("R:base") },
-        Doc { path: "bank/okane/", account: None, operator: None, rule_account: Some("R:bank") },
+        Doc { path: "checking/", account: None, operator: None, rule_account: Some("R:base"), format: None },
+        Doc { path: "bank/okane/", account: None, operator: None, rule_account: Some("R:bank"), format: None },
+        // `format` is a scalar setting: the block of the longest matching path replaces an inherited one WHOLESALE - also when it spells out a
+        // value that happens to be the default (seed C16-l: `row_order: old_to_new` in a sub-path was taken for "not given")
+        Doc { path: "bank/", account: None, operator: None, rule_account: None, format: Some(Some("new_to_old")) },
+        Doc { path: "bank/okane/", account: None, operator: None, rule_account: None, format: Some(Some("old_to_new")) },
+        Doc { path: "checking/", account: None, operator: None, rule_account: None, format: Some(None) },
     ];
     let files = ["/bank/okane/checking/2024.csv", "/okane/checking/202109.csv", "/bank/savings/x.csv", "/zz/bank/2024/okane/f.csv", "/other/file.csv"];
     // every ordered selection of up to 3 pool documents, written after the base document
@@ -87,17 +98,25 @@ fn layering(bad: &mut Vec<(String, String)>, evaluated: &mut u64) {
             let mut account = "Base";
             let mut operator: Option<&str> = None;
             let mut rules: Vec<&str> = Vec::new();
+            let mut row_order: Option<&str> = None;   // None: no matching document has a format block (the base document has none)
             for (_, pos) in &matching {
                 if *pos == 0 { rules.push("R:base"); continue; }
                 let d = &pool[sel[*pos - 1]];
                 if let Some(a) = d.account { account = a; }
                 if let Some(o) = d.operator { operator = Some(o); }
                 if let Some(r) = d.rule_account { rules.push(r); }
+                if let Some(ro) = d.format { row_order = Some(ro.unwrap_or("old_to_new")); }
             }
             let desc = format!("documents:\n{}\nfile: {}", yaml, f);
             match set.select(Path::new(f)) {
                 Ok(Some(e)) => {
                     let got_rules: Vec<&str> = e.rewrite.iter().map(|r| r.account.as_deref().unwrap_or("-")).collect();
+                    let got_order = match format!("{:?}", e.format.row_order).as_str() { "NewToOld" => "new_to_old", _ => "old_to_new" };
+                    if let Some(want_order) = row_order.filter(|w| *w != got_order) {
+                        if bad.len() < 8 {
+                            bad.push((desc.clone(), format!("selected format.row_order = {}; the format block of the longest matching path says {}", got_order, want_order)));
+                        }
+                    }
                     if e.account != account || e.operator.as_deref() != operator || got_rules != rules {
                         if bad.len() < 8 {
                             bad.push((desc, format!("selected account={} operator={:?} rules={:?}; merging the matching documents shortest path first gives account={} operator={:?} rules={:?}", e.account, e.operator, got_rules, account, operator, rules)));
@@ -120,6 +139,11 @@ enum Pat {
     CardCodePayee,
     /// `^(?P<payee>[a-z]+) ag$`
     StripAg,
+    /// `^ref(?P<code>[0-9]*):(?P<payee>.*)$` - both groups can match the EMPTY string: a group that took part in the match sets payee / code
+    /// even when it matched nothing (seed C17-l)
+    RefMaybeEmpty,
+    /// `^$` - matches only an empty payee (as left by the pattern above)
+    EmptyPayee,
 }
 
 impl Pat {
@@ -128,6 +152,8 @@ impl Pat {
             Pat::Lit(s) => s.to_string(),
             Pat::CardCodePayee => "^card (?P<code>[0-9]+) (?P<payee>.+)$".into(),
             Pat::StripAg => "^(?P<payee>[a-z]+) ag$".into(),
+            Pat::RefMaybeEmpty => "^ref(?P<code>[0-9]*):(?P<payee>.*)$".into(),
+            Pat::EmptyPayee => "^$".into(),
         }
     }
     /// Some((payee capture, code capture)) when the pattern matches `text`
@@ -144,6 +170,15 @@ impl Pat {
                 if !after.starts_with(' ') || after.len() < 2 { return None; }
                 Some((Some(after[1..].to_owned()), Some(digits)))
             }
+            Pat::RefMaybeEmpty => {
+                if !lower.starts_with("ref") { return None; }
+                let rest = &text[3..];
+                let digits: String = rest.chars().take_while(|c| c.is_ascii_digit()).collect();
+                let after = &rest[digits.len()..];
+                if !after.starts_with(':') { return None; }
+                Some((Some(after[1..].to_owned()), Some(digits)))
+            }
+            Pat::EmptyPayee => if text.is_empty() { Some((None, None)) } else { None },
             Pat::StripAg => {
                 if lower.len() < 4 || !lower.ends_with(" ag") { return None; }
                 let head = &text[..text.len() - 3];
@@ -192,9 +227,13 @@ fn rules_part(bad: &mut Vec<(String, String)>, evaluated: &mut u64, thorough: bo
         Rule { or: vec![And { payee: None, category: Some(Pat::Lit("salary")) }], pending: true, payee: Some("Employer"), account: Some("Income:Salary") },
         Rule { or: vec![lit("Migros"), lit("Employer")], pending: false, payee: None, account: None },
         Rule { or: vec![And { payee: Some(Pat::Lit("coop")), category: Some(Pat::Lit("travel")) }], pending: false, payee: None, account: Some("Expenses:Travel") },
+        Rule { or: vec![And { payee: Some(Pat::RefMaybeEmpty), category: None }], pending: false, payee: None, account: None },
+        Rule { or: vec![And { payee: Some(Pat::EmptyPayee), category: None }], pending: false, payee: Some("Nameless"), account: Some("Expenses:Nameless") },
     ];
     // (payee, category, amount)
-    let rows: [(&str, &str, &str); 6] = [
+    let rows: [(&str, &str, &str); 8] = [
+        ("ref77:", "misc", "-1.00"),
+        ("ref:Kiosk", "misc", "-2.00"),
         ("card 1234 MIGROS AG", "shop", "-10.00"),
         ("Coop City", "shop", "-20.00"),
         ("ACME GmbH", "salary", "300.00"),
